@@ -48,7 +48,7 @@ ASSUMPTIONS = [
     "element names used by the harness itself are chosen different from the candidate (uniqueness rules are C07)",
     "component names are exercised with a GPU component (a NIC derives service/interface names from it)",
 ]
-BUDGET = {"quick": 50000, "thorough": 2500000}
+BUDGET = {"quick": 50000, "thorough": 500000}
 MIN_LABEL_FRACTION = {
     "cls:MEMBER": 0.25, "cls:NON-MEMBER": 0.35, "nt": 0.25,
     # (boot-script and capacity cases live in small finite spaces; Hypothesis does not repeat examples)
@@ -426,6 +426,18 @@ def _run_tags(case):
     ok, res = _try(lambda: Tags(list(lst)))
     ctx.entry("ctor-list", ok, f"{info} -> {_exc(res)}", stored_ok=ok and res.tags == lst)
     accepted_obj = res if ok else None
+    if verdict == MEMBER:
+        # the list handed to the constructor stays the caller's: changing it afterwards must not change (let alone
+        # invalidate) what was stored
+        mine = list(lst)
+        ok2, res2 = _try(lambda: Tags(mine))
+        if ok2:
+            mine.append("not a valid tag!")
+            if mine:
+                mine[0] = "also not valid!"
+            if list(res2.tags) != lst or list(res2) != lst:
+                ctx.add("C16/Tags/nonmember-stored/through-the-callers-list",
+                        f"{info}: after the caller changed its own list the stored tags are {list(res2.tags)!r}")
     ok, res = _try(lambda: Tags(tuple(lst)))
     ctx.entry("ctor-tuple", ok, f"{info} -> {_exc(res)}", stored_ok=ok and res.tags == lst)
     ok, res = _try(lambda: Tags("first-ok", list(lst)))
